@@ -267,8 +267,31 @@ func execC12(t *testing.T, c C12Case) (v Verdict) {
 	malformed, wellformed := 0, 0
 	touched := map[uint64]int{}
 	refusable := 0
+	// A small definite life-cycle model for the echo method "s" when every envelope is digested before the next one is
+	// sent (non-burst): open -> (caller's OK trailer | caller's reset) -> the handler returns and the stream is gone; a
+	// body arriving after that is "a body for a stream the server does not know" and must be answered by a reset. Any
+	// other envelope touching the id makes its state unknown (no requirement).
+	sState := map[uint64]string{} // "" none | open | ended | unknown
+	bodiesAfterEnd := map[uint64]int{}
 	for _, s := range c.Seq {
 		sh := al[s.Shape]
+		if !c.Burst {
+			st := sState[s.ID]
+			switch {
+			case st == "unknown":
+			case sh.Name == "open" && st == "":
+				sState[s.ID] = "open"
+			case (sh.Name == "trailer-ok" || sh.Name == "reset") && st == "open":
+				sState[s.ID] = "ended"
+			case sh.Name == "body" && st == "open":
+			case sh.Name == "body" && st == "ended":
+				bodiesAfterEnd[s.ID]++
+			case sh.ValidUnary || sh.MaybeUnary || sh.Name == "unary-badmd" || sh.Name == "unary-garbage-body":
+				// unary requests live in the same id space but do not touch stream registrations
+			default:
+				sState[s.ID] = "unknown"
+			}
+		}
 		touched[s.ID]++
 		if sh.Name == "unary-badmd" || sh.Name == "unary-garbage-body" {
 			refusable++
@@ -362,6 +385,11 @@ func execC12(t *testing.T, c C12Case) (v Verdict) {
 	for id, n := range bodiesNeverOpened {
 		if resets[id] < n {
 			v.failf("id %d: %d bodies for a stream that was never opened, only %d resets", id, n, resets[id])
+		}
+	}
+	for id, n := range bodiesAfterEnd {
+		if sState[id] != "unknown" && resets[id] < n+bodiesNeverOpened[id] {
+			v.failf("id %d: %d bodies arrived after the stream had been opened, ended by its caller and left by its handler - a stream the server no longer knows - but only %d resets were sent", id, n, resets[id])
 		}
 	}
 	for id, n := range resets {
